@@ -24,6 +24,6 @@ TEXT = dict(
     note="Proved: the coverage guarantee for all p given the actual table; the algebra/analysis of eps, Phi, sort. Compared, "
          "not proved: float accuracy of normal_pdf (1e-15 rel), normal_cdf (1e-15 abs), normal_ppf (1e-7, cdf(ppf(q))=q to "
          "1e-15) against mpmath; scipy's beta.ppf (checked through exact inequalities); numpy argsort. Findings on the "
-         "unchanged tree are keyed by explicit input predicates (normal_pdf relative error for |x|>3; Clopper-Pearson "
-         "symmetry for 1-confidence<1e-5).",
+         "unchanged tree are keyed by explicit input predicates (normal_pdf relative error for |x|>3). The Clopper-Pearson symmetry "
+         "defect for 1-confidence<1e-5 found here is repaired in /repo (bbca487).",
 )
